@@ -130,8 +130,8 @@ def run(tier, seed):
     sdir = vlib.scratch("C20")
     try:
         common.proof_part(rep, "Properties_C20", extra_trusted=["Coq stdlib Floats.SpecFloat as the definition of IEEE-754 binary64/binary32 arithmetic (pure Gallina, no axioms)",
-        common.proof_part_more(rep, "Properties_C20e", extra_trusted=["Flocq (user-contrib) for the binary64 instance of the standard model; Classical_Prop.classic through Flocq"])
                                                                "g++ -O1 -ffp-contract=off on x86-64 SSE2 conforming to IEEE-754 for + - * / sqrt"])
+        common.proof_part_more(rep, "Properties_C20e", extra_trusted=["Flocq (user-contrib) for the binary64 instance of the standard model; Classical_Prop.classic through Flocq"])
         binary, err = vlib.build_harness("h_p2p")
         if not binary:
             rep.violation(dict(kind="build", clause="h_p2p", has_input=True), "harness h_p2p does not compile: " + err[-600:], dict(stderr=err))
